@@ -43,7 +43,10 @@ theorem pushUpdated_outs (w0 w1 : Walker Node) (sp sp2 : StackPage Node) (hout :
   rcases ho with h | h
   · left; rw [← hout]; exact h
   · right
-    exact ⟨sp2.page, _, _, hn, by rw [h, hid], fun i hi => totalDiff_changed sp2 i (hdf i hi)⟩
+    refine ⟨sp2.page, _, _, hn, by rw [h, hid], fun i hi => ?_⟩
+    split
+    · exact hdf i hi
+    · exact totalDiff_changed sp2 i (hdf i hi)
 
 theorem storeElided_diff (sp : StackPage Node) : (storeElided sp).diff = sp.diff := by
   unfold storeElided; split <;> rfl
@@ -112,8 +115,19 @@ theorem handleElision_spec (w : Walker Node) (sp : StackPage Node) (below : List
       rw [hci]
       simp only
       rw [pushOut_ok _ _ (by exact hrec)]
-      exact ⟨_, rfl, Same.rfl' _, rfl, rfl, rfl, pushUpdated_outs w _ sp _ rfl hid (storeElided_nodes sp) (by intro i hi; rw [storeElided_diff]; exact hi),
-        _, rfl, rfl, rfl, Or.inl ⟨rfl, rfl⟩, rfl⟩
+      refine ⟨_, rfl, Same.rfl' _, rfl, rfl, rfl, pushUpdated_outs w _ sp _ rfl hid (storeElided_nodes sp) (by intro i hi; rw [storeElided_diff]; exact hi),
+        _, rfl, rfl, rfl, ?_, rfl⟩
+      rcases hcp with ⟨h1, _⟩ | ⟨h1, h2⟩
+      · left; refine ⟨?_, rfl⟩
+        show (if w.mutStalePrev = true then parent.prevChildrenLeaves else none) = none
+        rw [h1]; split <;> rfl
+      · by_cases hm : w.mutStalePrev = true
+        · right; refine ⟨?_, h2⟩
+          show (if w.mutStalePrev = true then parent.prevChildrenLeaves else none) = some 0
+          rw [if_pos hm]; exact h1
+        · left; refine ⟨?_, rfl⟩
+          show (if w.mutStalePrev = true then parent.prevChildrenLeaves else none) = none
+          rw [if_neg hm]
     by_cases hroot : parentPageId (storeElided sp).pageId = []
     · rw [if_pos hroot, pushOut_ok _ _ (by exact hrec)]
       exact ⟨_, rfl, Same.rfl' _, rfl, rfl, rfl, pushUpdated_outs w _ sp _ rfl hid (storeElided_nodes sp) (by intro i hi; rw [storeElided_diff]; exact hi),
